@@ -49,6 +49,11 @@ claimed = {
          "Simple part: every simple GSUB (11) and GPOS (6) lookup of the menu x 11 flag combinations x 4 GDEF variants x optional second lookup in both orders, on all sequences of length <= 4 (quick) / 5 over {A,B,M,N,L}. Nested part: lookup lists [context parent in all six formats, two children (simple or contextual), grandchild, optional second top-level lookup] - all lists within deviation bound 3 (quick) / 4 of a deliberately rich default across 11 dimensions - on all sequences of length <= 5 / 6 over {A,B,M,L}; GSUB and GPOS flavours. Glyph ids, text, offsets and advances must equal the reference, which reproduces all 43 pinned cases of testcases sections 1-3 at start-up; cases outside the defined region are counted, not compared.",
          "The reference model (refshape) is the trusted base; its undefined-region rules are listed in the evidence assumptions; GSUB inputs carry zero advances.",
          "DESIGN.md 4/C06"),
+ "C07": ("model_checking",
+         "bounded exhaustive enumeration of hostile lookup structures / mutated table bytes x all short input sequences, and of Apply/Layout call histories, on the real engine",
+         "Structures: generator lookup lists (deviation bound 2/3) with one of 15 hostile modifications (out-of-range lookup, sequence, class, coverage, ligature-set and mark-filtering-set indices, empty replacement lists, self reference, 12-deep nesting, rules with 63..200 actions), passed through the library's own encoder and reader so that only shapes the reader can deliver are applied, on all sequences of length <= 4 over {A,B,M,0,0xFFFF} and on 200-glyph inputs: no panic, returns (20 s watchdog), every input character exactly once in the output. Bytes: every 16-bit field of encoded tables overwritten with 7 boundary values; whatever gtab.Read accepts is applied. Histories: all histories of <= 3 Apply calls over 6 inputs on one Context (and of <= 3 Layout calls over 7 strings on one Layouter): each probe equals the result on a fresh object.",
+         "Termination is observed with a generous wall-clock watchdog (20 s vs. microseconds); map-order independence only through Go's randomised iteration; the output-length clause is not checked beyond termination and text conservation (no sound closed-form bound for nested rules).",
+         "DESIGN.md 4/C07"),
 }
 checks = []
 na = []
